@@ -52,6 +52,7 @@ class Engine:
         self.samples = []
         self.smt2_samples = []
         self.keep_smt2 = 0
+        self.fixed = None      # concolic re-run: named inputs pinned to the values of a model
 
     # -- solver helpers ---------------------------------------------------------------------------
     def _check(self, *extra):
@@ -293,6 +294,8 @@ class Engine:
     def real(self, name, lo=None, hi=None):
         v = z3.Real(name)
         self.inputs[name] = v
+        if self.fixed is not None and name in self.fixed:
+            self.add(v == lift(float(self.fixed[name])))
         if lo is not None:
             self.add(v >= lift(lo))
         if hi is not None:
@@ -302,6 +305,8 @@ class Engine:
     def int(self, name, lo=None, hi=None):
         v = z3.Int(name)
         self.inputs[name] = v
+        if self.fixed is not None and name in self.fixed:
+            self.add(v == int(self.fixed[name]))
         if lo is not None:
             self.add(v >= lo)
         if hi is not None:
@@ -311,6 +316,8 @@ class Engine:
     def boolean(self, name):
         v = z3.Bool(name)
         self.inputs[name] = v
+        if self.fixed is not None and name in self.fixed:
+            self.add(v == bool(self.fixed[name]))
         return SymBool(v)
 
     def model_values(self, model):
